@@ -21,9 +21,17 @@ HOOK_DOC = ("ASSUMED abstract contract of the per-type hook: it may return anyth
 
 
 @pred
+def not_a_collection(r):
+    """an illegal result that is no collection at all: a bool, an int, an object of a class that is not a Block"""
+    return not isnone(r) and not isinstance(r, Collection) and not (isref(r) and isinstance(r, Block))
+
+
+@pred
 def result_shape(r):
-    """what the documentation allows a hook to return: None, a Block, or a list / tuple (of blocks)"""
-    return isnone(r) or (isref(r) and allocated(as_ref(r, 'ref:Block')) and (isinstance(r, Block) or isinstance(r, list) or isinstance(r, tuple))
+    """what a hook returns: what the documentation allows -- None, a Block, or a list / tuple (of anything: its items are
+    checked by the code) -- or an illegal value that is not a collection (False, 0, an arbitrary object; falsy or not).
+    Not covered by the contracts: str / set / dict results (bounded layer of C20: '', 'x')"""
+    return isnone(r) or not_a_collection(r) or (isref(r) and allocated(as_ref(r, 'ref:Block')) and (isinstance(r, Block) or isinstance(r, list) or isinstance(r, tuple))
                         and implies(isinstance(r, list) or isinstance(r, tuple), len(as_ref(r, 'list:any')) >= 0)
                         and implies(isinstance(r, list) or isinstance(r, tuple),
                                     forall(q, 0 <= q < len(as_ref(r, 'list:any')), implies(isref(as_ref(r, 'list:any')[q]), allocated(as_ref(as_ref(r, 'list:any')[q], 'ref:Block'))))))
@@ -76,7 +84,8 @@ class _:
     the frame obligations are the clauses of C07 for every BlockMiddleware-based middleware).
 
     Splice protocol (C20): ghost code records, per input block i, the kind of the hook result (hk: 0 None, 1 Block,
-    2 list / tuple; hres is the kind read off the result itself, and hk == hres), its length (hl) and the position (so) at
+    2 list / tuple; hres is the kind read off the result itself -- 3 for a value that is neither None, a Block nor a
+    collection, falsy or not -- and hk == hres, so a normal return means no result of kind 3: those raise), its length (hl) and the position (so) at
     which its outputs start in the collected list.  The
     outputs of input 0, 1, 2, ... follow each other without gaps in input order, None contributes nothing, a Block
     exactly itself, a collection exactly len(collection) blocks; the returned library holds exactly the collected
@@ -88,7 +97,7 @@ class _:
     ghost_code = [
         ("blocks = []", [("tn", None, "0")]),
         ("transformed = self.transform_block(b, library)", [("so", "ghost('tn')", "len(blocks)"),
-                                                            ("hres", "ghost('tn')", "0 if isnone(transformed) else (1 if isinstance(transformed, Block) else 2)")]),
+                                                            ("hres", "ghost('tn')", "0 if isnone(transformed) else (1 if isinstance(transformed, Block) else (3 if not_a_collection(transformed) else 2))")]),
         ("pass", [("hk", "ghost('tn')", "0"), ("tn", None, "ghost('tn') + 1")]),
         ("blocks.append(transformed)", [("hk", "ghost('tn')", "1"), ("hb", "ghost('tn')", "ref_id(blocks[len(blocks) - 1])"), ("tn", None, "ghost('tn') + 1")]),
         ("blocks.extend(transformed)", [("hk", "ghost('tn')", "2"), ("hl", "ghost('tn')", "len(blocks) - ghost('so', ghost('tn'))"), ("tn", None, "ghost('tn') + 1")]),
@@ -107,6 +116,7 @@ class _:
         "C07.fresh-library": "fresh(result)",
         "C20.splice-order": "ghost('tn') == len(library._blocks) and forall(i, 0 <= i < ghost('tn'), 0 <= ghost('hk', i) <= 2 and out_count(i) >= 0 and ghost('so', i) + out_count(i) == (ghost('so', i + 1) if i + 1 < ghost('tn') else len(result._blocks))) and implies(ghost('tn') > 0, ghost('so', 0) == 0) and implies(ghost('tn') == 0, len(result._blocks) == 0)",
         "C20.splice-kind": "forall(i, 0 <= i < ghost('tn'), ghost('hk', i) == ghost('hres', i))",
+        "C20.non-block-raises": "forall(i, 0 <= i < ghost('tn'), ghost('hres', i) != 3)",
         "C20.splice-block": "forall(i, 0 <= i < ghost('tn'), implies(ghost('hk', i) == 1, 0 <= ghost('so', i) < len(result._blocks) and (ref_id(result._blocks[ghost('so', i)]) == ghost('hb', i) or cls_is(result._blocks[ghost('so', i)], 'DuplicateBlockKeyBlock'))))",
     }
     raises = {"Exception": {"when": None}}
